@@ -310,22 +310,27 @@ static void case_c06(uint64_t idx, vr::Ctx& ctx)
 struct C07
 {
     int pending, blockAt, releaseAfter, arriveAt, order, split;
+    int closer; // a third connection of the same worker goes away in the very batch in which A becomes writable again
 };
 static std::vector<C07> gC07;
 
 static void case_c07(uint64_t idx, vr::Ctx& ctx)
 {
     const C07 c = gC07[idx];
-    std::string desc = "A: " + std::to_string(c.pending) + " pending writes, would-block at write call " + std::to_string(c.blockAt) + " released after " + std::to_string(c.releaseAfter) + " steps; B: request at step " + std::to_string(c.arriveAt) + (c.split ? " (in two reads)" : "") + "; event order " + (c.order ? "B first" : "A first");
+    std::string desc = std::string(c.closer ? "[third connection closes when A is released] " : "") + "A: " + std::to_string(c.pending) + " pending writes, would-block at write call " + std::to_string(c.blockAt) + " released after " + std::to_string(c.releaseAfter) + " steps; B: request at step " + std::to_string(c.arriveAt) + (c.split ? " (in two reads)" : "") + "; event order " + (c.order ? "B first" : "A first");
     ctx.note("c07 " + desc);
     auto handler = std::make_shared<EchoHandler>();
     lp::Loop loop(handler);
     std::shared_ptr<Tcp::Peer> pa, pb;
+    std::shared_ptr<Tcp::Peer> pc;
+    int cc = c.closer ? loop.connect_peer(&pc) : -1; // created first: its descriptor number is the lowest
     int ca = loop.connect_peer(&pa), cb = loop.connect_peer(&pb);
     loop.settle();
     const int fa = pa->fd(), fb = pb->fd();
     lp::World& W = lp::W();
     W.event_order = c.order ? std::vector<int> { fb, fa } : std::vector<int> { fa, fb };
+    if (c.closer)
+        W.event_order.insert(W.event_order.begin(), pc->fd()); // the departing peer's event is handled first
     for (int i = 0; i < c.blockAt; ++i)
         W.plan[fa].push_back({ lp::ACCEPT, 3 });
     W.plan[fa].push_back({ lp::BLOCK, 0 });
@@ -362,7 +367,14 @@ static void case_c07(uint64_t idx, vr::Ctx& ctx)
             heldSince = s;
         if (held && !released && s - heldSince >= c.releaseAfter)
         {
-            loop.release(fa);
+            if (c.closer)
+            {
+                ::close(cc);                      // EOF on the third connection ...
+                for (auto& f : loop.clientFds)
+                    if (f == cc)
+                        f = -1;
+            }
+            loop.release(fa);                     // ... in the same batch as A's writable edge
             released = true;
         }
         if (!progressed && s > c.arriveAt + 2 && (released || heldSince < 0) && !held)
@@ -416,7 +428,8 @@ int main(int argc, char** argv)
                     for (int j = 0; j <= 6; ++j)
                         for (int o = 0; o < 2; ++o)
                             for (int sp = 0; sp < 2; ++sp)
-                                gC07.push_back({ p, i, d, j, o, sp });
+                                for (int cl = 0; cl < 2; ++cl)
+                                    gC07.push_back({ p, i, d, j, o, sp, cl });
         return vr::run(opt, gC07.size(), case_c07);
     }
     const int nk = sizeof kKinds / sizeof kKinds[0];
